@@ -13,16 +13,25 @@ def _elem_shape(a):
     return np.asarray(a, dtype=object).shape[:-1]
 
 
-ANTISYMMETRIC = {"fv"}  # K(r2, r1) = -K(r1, r2): discharged on the real kernel in C05 (kernel lemmas)
+ANTISYMMETRIC = {"fv"}  # K(r2, r1) = -K(r1, r2)
+MU = (-1, 1, -1)  # mirror covariance K(M a, M b) = -M K(a, b), M = diag(1, -1, 1):  K_i(M a, M b) = MU[i] K_i(a, b)
+MC = (1, -1, 1)  # d(M a)_c / d a_c
+# Both relations are discharged on the real kernels (C01 kernel contracts, C05 kernel lemmas); the stubs use them to
+# bring every kernel application to one canonical representative, so that mirror-image and reversed segments share atoms.
 
 
-def _swap(name, fargs):
-    """canonical argument order for antisymmetric kernels: (a, b) with key(a) <= key(b)"""
-    if name not in ANTISYMMETRIC:
-        return False
-    ka = tuple(x.fp for x in fargs[:3])
-    kb = tuple(x.fp for x in fargs[3:])
-    return kb < ka
+def _canon(name, fargs):
+    """-> (canonical args, swapped?, mirrored?) : the representative with the smallest fingerprint key among
+    (a,b), (b,a) [antisymmetric kernels], (Ma,Mb), (Mb,Ma)"""
+    a, b = fargs[:3], fargs[3:]
+    ma = [a[0], _s.neg(a[1]), a[2]]
+    mb = [b[0], _s.neg(b[1]), b[2]]
+    cands = [((a, b), False, False), ((ma, mb), False, True)]
+    if name in ANTISYMMETRIC:
+        cands += [((b, a), True, False), ((mb, ma), True, True)]
+    best = min(cands, key=lambda c: tuple(x.fp for x in c[0][0]) + tuple(x.fp for x in c[0][1]))
+    (x, y), sw, mi = best
+    return list(x) + list(y), sw, mi
 
 
 def _apply(name, arrs):
@@ -32,12 +41,11 @@ def _apply(name, arrs):
     out = np.empty(shp + (3,), dtype=object)
     for idx in np.ndindex(*shp):
         fargs = [S(a[idx + (k,)]) for a in arrs for k in range(3)]
-        sw = _swap(name, fargs)
-        if sw:
-            fargs = fargs[3:] + fargs[:3]
+        cargs, sw, mi = _canon(name, fargs)
         for i in range(3):
-            u = ufn(name, (i,), fargs)
-            out[idx + (i,)] = _s.neg(u) if sw else u
+            u = ufn(name, (i,), cargs)
+            sign = (-1 if sw else 1) * (MU[i] if mi else 1)
+            out[idx + (i,)] = _s.neg(u) if sign < 0 else u
     return out
 
 
@@ -50,20 +58,21 @@ def _apply_deriv(name, arrs, which, deriv):
     out = np.empty(shp + (3, 3), dtype=object)
     for idx in np.ndindex(*shp):
         fargs = [S(a[idx + (k,)]) for a in arrs for k in range(3)]
-        sw = _swap(name, fargs)
-        w = which
-        if sw:
-            fargs = fargs[3:] + fargs[:3]
-            w = 1 - which
+        cargs, sw, mi = _canon(name, fargs)
+        w = (1 - which) if sw else which
         for i in range(3):
+            sign_i = (-1 if sw else 1) * (MU[i] if mi else 1)
             for j in range(3):
                 acc = ZERO
                 for c in range(3):
                     dv = S(deriv[idx + (c, j)])
                     if dv is ZERO:
                         continue
-                    acc = add(acc, mul(ufn(name + "'", (i, 3 * w + c), fargs), dv))
-                out[idx + (i, j)] = _s.neg(acc) if sw else acc
+                    term = mul(ufn(name + "'", (i, 3 * w + c), cargs), dv)
+                    if sign_i * (MC[c] if mi else 1) < 0:
+                        term = _s.neg(term)
+                    acc = add(acc, term)
+                out[idx + (i, j)] = acc
     return out
 
 
